@@ -631,3 +631,40 @@ func (t token_) tok() token.Token {
 }
 
 func tokADD() token.Token { return token.ADD }
+
+// funcGroup: fn, its function literals, and the same-package functions it
+// statically calls (two levels), with their literals – the code a maintainer
+// may have split one function into.
+func funcGroup(fn *ssa.Function) []*ssa.Function {
+	seen := map[*ssa.Function]bool{}
+	var out []*ssa.Function
+	var add func(f *ssa.Function, depth int)
+	add = func(f *ssa.Function, depth int) {
+		if f == nil || seen[f] || f.Blocks == nil {
+			return
+		}
+		seen[f] = true
+		out = append(out, f)
+		for _, a := range f.AnonFuncs {
+			add(a, depth)
+		}
+		if depth >= 2 {
+			return
+		}
+		for _, c := range callsIn(f) {
+			callee := staticCallee(c)
+			if callee == nil {
+				continue
+			}
+			pk, rp := callee.Pkg, fn.Pkg
+			if rp == nil && fn.Parent() != nil {
+				rp = fn.Parent().Pkg
+			}
+			if pk != nil && pk == rp {
+				add(callee, depth+1)
+			}
+		}
+	}
+	add(fn, 0)
+	return out
+}
